@@ -243,6 +243,10 @@ def step (st : State) (w : List String) : State × String :=
     let addrs := leader.addr :: res.map (·.addr)
     let alias := addrs.length != addrs.eraseDups.length
     (st, s!"ids={",".intercalate (res.map fun m => toString m.id)} alias={boolStr alias} errs=0")
+  | ["pool", "subq", pat] =>
+    -- a sub-query whose handler writes nothing returns no response, whatever the pooled writer carried before
+    let outs := (pat.toList.zipIdx).map fun (c, i) => if c == 'w' then toString (100 + i) else "none"
+    (st, ",".intercalate outs)
   | "usrv" :: _ => (st, "unmodelled")
   | "tsrv" :: _ => (st, "unmodelled")
   | "stress" :: _ => (st, "unmodelled")
